@@ -1,7 +1,6 @@
-import PsyVerif.Model.SymTab
-import Std.Data.String.ToNat
-import Mathlib.Data.List.Perm.Subperm
-import Mathlib.Data.List.Nodup
+import PsyVerif.Lemmas.C16Base
+import PsyVerif.Lemmas.C16Merge
+import Mathlib.Data.List.Count
 /-! # C16 — Symbol tables keep names unique and lookups scoped
 
 Model: `PsyVerif/Model/SymTab.lean` (`C16.step` mirrors `SymbolTable` of the pinned tree, including the
@@ -15,582 +14,14 @@ symbols or operations.
 * `C16_atomic` — full for every operation except `merge`.
 * `merge`: the pinned code is NOT atomic and does NOT add every non-skipped symbol (4 known findings):
   `C16_merge_atomic_statement` / `C16_merge_once_statement` are refuted on concrete witnesses and
-  `C16_merge_rejected_atomic_partial`, `C16_merge_once_partial` are proved under explicit side conditions.
+  `C16_no_raise_after_check_partial`, `C16_merge_atomic_partial`, `C16_merge_once_full_partial`,
+  `C16_merge_ordinary_exactly_once` are proved under the explicit decidable side conditions `MergeSide`
+  (Lemmas/C16Merge.lean); `check_for_clashes` itself is atomic (`C16_merge_check_atomic`, fixed mode:
+  fixes/C16-defer-specialise.patch).
 -/
 namespace C16
 
-/-! ## helper lemmas: names -/
-
-theorem lowerC_digit {c : Char} (h : c.isDigit) : lowerC c.toNat = c.toNat := by
-  have : 48 ≤ c.toNat ∧ c.toNat ≤ 57 := by
-    simp only [Char.isDigit, Bool.and_eq_true, decide_eq_true_eq] at h
-    have h1 : '0'.val ≤ c.val := h.1
-    have h2 := h.2
-    rw [UInt32.le_iff_toNat_le] at h1 h2
-    have e1 : '0'.val.toNat = 48 := by decide
-    have e2 : '9'.val.toNat = 57 := by decide
-    rw [e1] at h1; rw [e2] at h2
-    exact ⟨h1, h2⟩
-  unfold lowerC; split <;> omega
-
-theorem lower_digits (n : Nat) : lower (digits n) = digits n := by
-  unfold lower digits
-  rw [List.map_map]
-  apply List.map_congr_left
-  intro c hc
-  exact lowerC_digit (Nat.isDigit_of_mem_toDigits (by omega) (by omega) hc)
-
-theorem digits_inj {m n : Nat} (h : digits m = digits n) : m = n := by
-  unfold digits at h
-  have h2 : Nat.toDigits 10 m = Nat.toDigits 10 n :=
-    List.map_injective_iff.mpr (fun a b hab => Char.toNat_inj.mp hab) h
-  apply Nat.repr_injective
-  simp [Nat.repr, h2]
-
-theorem lower_cand_succ (root : Name) (i : Nat) :
-    lower (cand root (i+1)) = lower root ++ 95 :: digits (i+1) := by
-  simp only [cand, lower, List.map_append, List.map_cons]
-  congr 1
-  · congr 1
-    exact lower_digits (i+1)
-
-theorem lower_cand_inj (root : Name) {i j : Nat} (h : lower (cand root i) = lower (cand root j)) : i = j := by
-  cases i with
-  | zero =>
-    cases j with
-    | zero => rfl
-    | succ j =>
-      rw [lower_cand_succ] at h
-      have := congrArg List.length h
-      simp [cand, lower] at this
-  | succ i =>
-    cases j with
-    | zero =>
-      rw [lower_cand_succ] at h
-      have := congrArg List.length h
-      simp [cand, lower] at this
-    | succ j =>
-      rw [lower_cand_succ, lower_cand_succ] at h
-      have h1 := List.append_cancel_left h
-      injection h1 with _ h2
-      exact digits_inj h2
-
-
-/-! ### next_available_name: the loop stops and its result is fresh -/
-
-theorem nextIdx_below (ex : List Name) (root : Name) : ∀ f i j, i ≤ j → j < nextIdx ex root f i →
-    lower (cand root j) ∈ ex := by
-  intro f; induction f with
-  | zero => intro i j h1 h2; simp [nextIdx] at h2; omega
-  | succ f ih =>
-    intro i j h1 h2
-    simp only [nextIdx] at h2
-    split at h2
-    · rename_i hmem
-      by_cases hji : j = i
-      · subst hji; exact hmem
-      · exact ih (i+1) j (by omega) h2
-    · omega
-
-theorem nextIdx_stop (ex : List Name) (root : Name) : ∀ f i,
-    lower (cand root (nextIdx ex root f i)) ∉ ex ∨ nextIdx ex root f i = i + f := by
-  intro f; induction f with
-  | zero => intro i; right; simp [nextIdx]
-  | succ f ih =>
-    intro i
-    simp only [nextIdx]
-    split
-    · rcases ih (i+1) with h | h
-      · left; exact h
-      · right; omega
-    · left; assumption
-
-theorem pigeon (ex : List Name) (root : Name) (n : Nat)
-    (h : ∀ j, j < n → lower (cand root j) ∈ ex) : n ≤ ex.length := by
-  have hnd : ((List.range n).map (fun j => lower (cand root j))).Nodup :=
-    List.Nodup.map_on (fun a _ b _ hab => lower_cand_inj root hab) List.nodup_range
-  have hsub : (List.range n).map (fun j => lower (cand root j)) ⊆ ex := by
-    intro x hx
-    simp only [List.mem_map, List.mem_range] at hx
-    obtain ⟨j, hj, rfl⟩ := hx
-    exact h j hj
-  have := (List.subperm_of_subset hnd hsub).length_le
-  simpa using this
-
-theorem nextIdx_le (ex : List Name) (root : Name) : nextIdx ex root (ex.length + 1) 0 ≤ ex.length :=
-  pigeon ex root _ (fun j hj => nextIdx_below ex root _ 0 j (Nat.zero_le _) hj)
-
-theorem nextIdx_fresh (ex : List Name) (root : Name) :
-    lower (cand root (nextIdx ex root (ex.length + 1) 0)) ∉ ex := by
-  rcases nextIdx_stop ex root (ex.length + 1) 0 with h | h
-  · exact h
-  · have := nextIdx_le ex root; omega
-
-theorem nextName_fresh (ex : List Name) (root : Name) : lower (nextName ex root) ∉ ex := by
-  unfold nextName; exact nextIdx_fresh ex _
-
-/-! ### association lists -/
-
-theorem hasKey_iff {e : Ents} {k : Name} : hasKey e k = true ↔ k ∈ keys e := by
-  induction e with
-  | nil => simp [hasKey, keys]
-  | cons p r ih =>
-    obtain ⟨a, s⟩ := p
-    simp only [hasKey, keys, List.map_cons, List.mem_cons, Bool.or_eq_true, beq_iff_eq]
-    simp only [keys] at ih
-    rw [ih]; constructor
-    · rintro (h | h); exact Or.inl h.symm; exact Or.inr h
-    · rintro (h | h); exact Or.inl h.symm; exact Or.inr h
-
-theorem hasKey_false_iff {e : Ents} {k : Name} : hasKey e k = false ↔ k ∉ keys e := by
-  rw [← hasKey_iff]; simp
-
-theorem getKey_some_mem {e : Ents} {k : Name} {s : Sym} (h : getKey e k = some s) : (k, s) ∈ e := by
-  induction e with
-  | nil => simp [getKey] at h
-  | cons p r ih =>
-    obtain ⟨a, s'⟩ := p
-    simp only [getKey] at h
-    split at h
-    · rename_i hk; simp at hk; cases h; subst hk; simp
-    · exact List.mem_cons_of_mem _ (ih h)
-
-theorem getKey_none_iff {e : Ents} {k : Name} : getKey e k = none ↔ k ∉ keys e := by
-  induction e with
-  | nil => simp [getKey, keys]
-  | cons p r ih =>
-    obtain ⟨a, s'⟩ := p
-    simp only [getKey, keys, List.map_cons, List.mem_cons, not_or]
-    simp only [keys] at ih
-    split
-    · rename_i hk; simp at hk; simp [hk]
-    · rename_i hk; simp at hk; rw [ih]; constructor
-      · intro h; exact ⟨fun h' => hk h'.symm, h⟩
-      · intro h; exact h.2
-
-theorem getKey_isSome_eq_hasKey (e : Ents) (k : Name) : (getKey e k).isSome = hasKey e k := by
-  induction e with
-  | nil => simp [getKey, hasKey]
-  | cons p r ih =>
-    obtain ⟨a, s'⟩ := p
-    simp only [getKey, hasKey]
-    split
-    · rename_i hk; simp [hk]
-    · rename_i hk; simp [hk, ih]
-
-theorem unique_of_nodup {e : Ents} (hn : (keys e).Nodup) {k : Name} {a b : Sym}
-    (ha : (k, a) ∈ e) (hb : (k, b) ∈ e) : a = b := by
-  induction e with
-  | nil => simp at ha
-  | cons p r ih =>
-    simp only [keys, List.map_cons, List.nodup_cons] at hn
-    rcases List.mem_cons.mp ha with ha | ha <;> rcases List.mem_cons.mp hb with hb | hb
-    · rw [← ha] at hb; injection hb with _ h2; exact h2.symm ▸ rfl
-    · exfalso; apply hn.1; rw [← ha]; exact List.mem_map.mpr ⟨_, hb, rfl⟩
-    · exfalso; apply hn.1; rw [← hb]; exact List.mem_map.mpr ⟨_, ha, rfl⟩
-    · exact ih hn.2 ha hb
-
-theorem mem_delKey {e : Ents} {k : Name} {p : Name × Sym} (h : p ∈ delKey e k) : p ∈ e := by
-  induction e with
-  | nil => simp [delKey] at h
-  | cons q r ih =>
-    obtain ⟨a, s⟩ := q
-    simp only [delKey] at h
-    split at h
-    · exact List.mem_cons_of_mem _ h
-    · rcases List.mem_cons.mp h with h | h
-      · exact h ▸ List.mem_cons_self
-      · exact List.mem_cons_of_mem _ (ih h)
-
-theorem mem_delKey_of_ne {e : Ents} {k : Name} {p : Name × Sym} (h : p ∈ e) (hne : p.1 ≠ k) :
-    p ∈ delKey e k := by
-  induction e with
-  | nil => simp at h
-  | cons q r ih =>
-    obtain ⟨a, s⟩ := q
-    simp only [delKey]
-    rcases List.mem_cons.mp h with h | h
-    · subst h
-      split
-      · rename_i hk; simp at hk; exact absurd hk hne
-      · exact List.mem_cons_self
-    · split
-      · exact h
-      · exact List.mem_cons_of_mem _ (ih h)
-
-theorem keys_delKey_sublist (e : Ents) (k : Name) : (keys (delKey e k)).Sublist (keys e) := by
-  induction e with
-  | nil => simp [delKey, keys]
-  | cons q r ih =>
-    obtain ⟨a, s⟩ := q
-    simp only [delKey]
-    split
-    · simp [keys]
-    · simp only [keys, List.map_cons]; exact List.Sublist.cons_cons _ ih
-
-theorem not_mem_keys_delKey {e : Ents} (hn : (keys e).Nodup) (k : Name) : k ∉ keys (delKey e k) := by
-  induction e with
-  | nil => simp [delKey, keys]
-  | cons q r ih =>
-    obtain ⟨a, s⟩ := q
-    simp only [keys, List.map_cons, List.nodup_cons] at hn
-    simp only [delKey]
-    split
-    · rename_i hk; simp at hk; subst hk; exact hn.1
-    · rename_i hk; simp at hk
-      simp only [keys, List.map_cons, List.mem_cons, not_or]
-      exact ⟨fun h => hk h.symm, ih hn.2⟩
-
-theorem getId_some {e : Ents} {i : Nat} {s : Sym} (h : getId e i = some s) :
-    s.id = i ∧ ∃ k, (k, s) ∈ e := by
-  induction e with
-  | nil => simp [getId] at h
-  | cons q r ih =>
-    obtain ⟨a, s'⟩ := q
-    simp only [getId] at h
-    split at h
-    · rename_i hk; simp at hk; cases h; exact ⟨hk, a, List.mem_cons_self⟩
-    · obtain ⟨h1, k, h2⟩ := ih h; exact ⟨h1, k, List.mem_cons_of_mem _ h2⟩
-
-theorem keys_updKey (e : Ents) (k : Name) (f : Sym → Sym) : keys (updKey e k f) = keys e := by
-  induction e with
-  | nil => simp [updKey, keys]
-  | cons q r ih =>
-    obtain ⟨a, s⟩ := q
-    simp only [updKey]
-    split
-    · simp [keys]
-    · simp only [keys, List.map_cons] at ih ⊢; rw [ih]
-
-theorem mem_updKey {e : Ents} {k : Name} {f : Sym → Sym} {p : Name × Sym} (h : p ∈ updKey e k f) :
-    p ∈ e ∨ ∃ s, (p.1, s) ∈ e ∧ p.2 = f s := by
-  induction e with
-  | nil => simp [updKey] at h
-  | cons q r ih =>
-    obtain ⟨a, s⟩ := q
-    simp only [updKey] at h
-    split at h
-    · rcases List.mem_cons.mp h with h | h
-      · right; exact ⟨s, by rw [h]; exact List.mem_cons_self, by rw [h]⟩
-      · left; exact List.mem_cons_of_mem _ h
-    · rcases List.mem_cons.mp h with h | h
-      · left; rw [h]; exact List.mem_cons_self
-      · rcases ih h with h | ⟨s', h1, h2⟩
-        · left; exact List.mem_cons_of_mem _ h
-        · right; exact ⟨s', List.mem_cons_of_mem _ h1, h2⟩
-
-theorem ids_updKey (e : Ents) (k : Name) (f : Sym → Sym) (hf : ∀ s, (f s).id = s.id) :
-    ids (updKey e k f) = ids e := by
-  induction e with
-  | nil => simp [updKey, ids]
-  | cons q r ih =>
-    obtain ⟨a, s⟩ := q
-    simp only [updKey]
-    split
-    · simp [ids, hf]
-    · simp only [ids, List.map_cons] at ih ⊢; rw [ih]
-
-/-! ### the invariant of one table -/
-
-structure TInv (t : Table) : Prop where
-  /-- every key is the lower-cased name of its symbol -/
-  keyName : ∀ p ∈ t.ents, p.1 = lower p.2.name
-  /-- keys (hence names, case-insensitively) are distinct -/
-  nodup : (keys t.ents).Nodup
-  /-- tags refer to symbols of this table -/
-  tags : ∀ g ∈ t.tags, g.2 ∈ ids t.ents
-
-theorem TInv_empty (n : Option Nat) : TInv { node := n } :=
-  ⟨by simp, by simp [keys], by simp⟩
-
-theorem TInv_of_ents_eq {t t' : Table} (h : TInv t) (he : t'.ents = t.ents) (ht : t'.tags = t.tags) : TInv t' :=
-  ⟨by rw [he]; exact h.keyName, by rw [he]; exact h.nodup, by rw [he, ht]; exact h.tags⟩
-
-theorem addSym_inv {t t' : Table} {ct : List Name} {s : Sym} {tag : Option Name}
-    (h : TInv t) (hr : addSym t ct s tag = .ok t') : TInv t' := by
-  unfold addSym at hr
-  split at hr
-  · cases hr
-  · rename_i hk
-    have hk' : lower s.name ∉ keys t.ents := by
-      apply hasKey_false_iff.mp; simpa using hk
-    have hbase : (∀ p ∈ t.ents ++ [(lower s.name, s)], p.1 = lower p.2.name) ∧
-        (keys (t.ents ++ [(lower s.name, s)])).Nodup := by
-      constructor
-      · intro p hp
-        rcases List.mem_append.mp hp with hp | hp
-        · exact h.keyName p hp
-        · simp at hp; subst hp; rfl
-      · simp only [keys, List.map_append, List.map_cons, List.map_nil]
-        apply List.Nodup.append h.nodup (by simp)
-        intro a ha hb; simp at hb; subst hb; exact hk' ha
-    have hids : ∀ i ∈ ids t.ents, i ∈ ids (t.ents ++ [(lower s.name, s)]) := by
-      intro i hi; simp only [ids, List.map_append, List.mem_append]; exact Or.inl hi
-    split at hr
-    · split at hr
-      · cases hr
-      · cases hr
-        refine ⟨hbase.1, hbase.2, ?_⟩
-        intro g hg
-        rcases List.mem_append.mp hg with hg | hg
-        · exact hids _ (h.tags g hg)
-        · simp at hg; subst hg; simp [ids]
-    · cases hr
-      exact ⟨hbase.1, hbase.2, fun g hg => hids _ (h.tags g hg)⟩
-
-/-- the entry that `delKey` removes is the entry of the symbol found by identity -/
-theorem ids_after_rename {e : Ents} (hk : ∀ p ∈ e, p.1 = lower p.2.name) (hn : (keys e).Nodup)
-    {s : Sym} {k : Name} (hs : (k, s) ∈ e) (x : Name × Sym) (hx : x.2.id = s.id) :
-    ∀ i ∈ ids e, i ∈ ids (delKey e (lower s.name) ++ [x]) := by
-  intro i hi
-  simp only [ids, List.mem_map] at hi
-  obtain ⟨p, hp, rfl⟩ := hi
-  simp only [ids, List.map_append, List.mem_append, List.mem_map]
-  by_cases hpk : p.1 = lower s.name
-  · right
-    have hks : k = lower s.name := hk _ hs
-    have : p.2 = s := by
-      apply unique_of_nodup hn (k := lower s.name)
-      · rw [← hpk]; exact hp
-      · rw [← hks]; exact hs
-    exact ⟨x, by simp, by rw [this, hx]⟩
-  · left; exact ⟨p, mem_delKey_of_ne hp hpk, rfl⟩
-
-theorem renameSym_inv {t t' : Table} {i : Nat} {nn : Name} {dry : Bool}
-    (h : TInv t) (hr : renameSym t i nn dry = .ok t') : TInv t' := by
-  unfold renameSym at hr
-  split at hr
-  · cases hr
-  · rename_i s hs
-    obtain ⟨hid, k, hmem⟩ := getId_some hs
-    split at hr
-    · cases hr
-    · split at hr
-      · cases hr
-      · rename_i hk
-        have hk' : lower nn ∉ keys t.ents := by apply hasKey_false_iff.mp; simpa using hk
-        split at hr
-        · cases hr; exact h
-        · cases hr
-          refine ⟨?_, ?_, ?_⟩
-          · intro p hp
-            rcases List.mem_append.mp hp with hp | hp
-            · exact h.keyName p (mem_delKey hp)
-            · simp at hp; subst hp; rfl
-          · simp only [keys, List.map_append, List.map_cons, List.map_nil]
-            apply List.Nodup.append ((keys_delKey_sublist _ _).nodup h.nodup) (by simp)
-            intro a ha hb; simp at hb; subst hb
-            exact hk' ((keys_delKey_sublist _ _).subset ha)
-          · intro g hg
-            exact ids_after_rename h.keyName h.nodup hmem _ rfl _ (h.tags g hg)
-
-theorem removeSym_inv {t t' : Table} {s : Sym} (h : TInv t) (hr : removeSym t s = .ok t') : TInv t' := by
-  unfold removeSym at hr
-  split at hr
-  · cases hr
-  · split at hr
-    · cases hr
-    · rename_i s' hs'
-      split at hr
-      · cases hr
-      · rename_i hid
-        split at hr
-        · cases hr
-        · cases hr
-          refine ⟨fun p hp => h.keyName p (mem_delKey hp), (keys_delKey_sublist _ _).nodup h.nodup, ?_⟩
-          intro g hg
-          simp only [List.mem_filter] at hg
-          have hgi := h.tags g hg.1
-          simp only [ids, List.mem_map] at hgi ⊢
-          obtain ⟨p, hp, hpi⟩ := hgi
-          refine ⟨p, mem_delKey_of_ne hp ?_, hpi⟩
-          intro hpk
-          have : p.2 = s' := unique_of_nodup h.nodup (by rw [← hpk]; exact hp) (getKey_some_mem hs')
-          have hne : g.2 ≠ s.id := by simpa using hg.2
-          have hid' : s'.id = s.id := by simpa using hid
-          apply hne; rw [← hpi, this, hid']
-
-theorem swapSym_inv {t t' : Table} {o n : Sym} (h : TInv t) (hr : swapSym t o n = .ok t') : TInv t' := by
-  unfold swapSym at hr
-  split at hr
-  · cases hr
-  · split at hr
-    · cases hr
-    · rename_i t1 h1
-      exact addSym_inv (removeSym_inv h h1) hr
-
-theorem updKey_inv {t : Table} {k : Name} {f : Sym → Sym} (h : TInv t)
-    (hf : ∀ s, (f s).id = s.id ∧ (f s).name = s.name) : TInv { t with ents := updKey t.ents k f } := by
-  refine ⟨?_, ?_, ?_⟩
-  · intro p hp
-    rcases mem_updKey hp with hp | ⟨s, h1, h2⟩
-    · exact h.keyName p hp
-    · have := h.keyName _ h1
-      simp only at this
-      rw [this, h2, (hf s).2]
-  · show (keys (updKey t.ents k f)).Nodup
-    rw [keys_updKey]; exact h.nodup
-  · show ∀ g ∈ t.tags, g.2 ∈ ids (updKey t.ents k f)
-    rw [ids_updKey _ _ _ (fun s => (hf s).1)]; exact h.tags
-
 /-! ## The property -/
-
-/-! ### merge keeps the invariant of both tables, whatever happens -/
-
-def PInv (r : MR) : Prop := TInv r.self ∧ TInv r.other
-
-theorem setKind_inv {t : Table} (h : TInv t) (k : Name) (kd : Kind) : TInv (setKind t k kd) :=
-  updKey_inv h (fun _ => ⟨rfl, rfl⟩)
-
-theorem checkOne_inv (cx : MergeCtx) {self other : Table} (hs : TInv self) (ho : TInv other) (o : Sym) :
-    PInv (checkOne cx self other o) := by
-  have hs' : ∀ (b : Bool) k kd, TInv (if b then setKind self k kd else self) := by
-    intro b k kd; split; exact setKind_inv hs k kd; exact hs
-  have ho' : ∀ (b : Bool) k kd, TInv (if b then setKind other k kd else other) := by
-    intro b k kd; split; exact setKind_inv ho k kd; exact ho
-  unfold checkOne
-  dsimp only
-  repeat' split
-  all_goals first
-    | exact ⟨hs, ho⟩
-    | exact ⟨hs' _ _ _, ho⟩
-    | exact ⟨hs' _ _ _, ho' _ _ _⟩
-    | exact ⟨setKind_inv hs _ _, ho⟩
-    | exact ⟨hs, setKind_inv ho _ _⟩
-    | exact ⟨setKind_inv hs _ _, setKind_inv ho _ _⟩
-
-theorem checkLoop_inv (cx : MergeCtx) : ∀ (l : List Sym) {self other : Table}, TInv self → TInv other →
-    PInv (checkLoop cx l self other) := by
-  intro l; induction l with
-  | nil => intro s o hs ho; exact ⟨hs, ho⟩
-  | cons a r ih =>
-    intro s o hs ho
-    have h1 := checkOne_inv cx hs ho a
-    generalize hres : checkOne cx s o a = res at h1
-    obtain ⟨e, s', o'⟩ := res
-    cases e with
-    | none => simp only [checkLoop, hres]; exact ih h1.1 h1.2
-    | some e => simp only [checkLoop, hres]; exact h1
-
-theorem renameFresh_inv {cx : MergeCtx} {self other t' : Table} {i : Nat} {root : Name}
-    (hs : TInv self) (h : renameFresh cx self other i root = .ok t') : TInv t' :=
-  renameSym_inv hs h
-
-theorem importLoop_inv (cx : MergeCtx) (c : Sym) : ∀ (l : List Sym) {self other : Table}, TInv self →
-    TInv other → PInv (importLoop cx c l self other) := by
-  intro l; induction l with
-  | nil => intro s o hs ho; exact ⟨hs, ho⟩
-  | cons i r ih =>
-    intro s o hs ho
-    simp only [importLoop]
-    split
-    · exact ⟨hs, ho⟩
-    · rename_i self' hstep
-      have hs' : TInv self' := by
-        split at hstep
-        · split at hstep
-          · exact renameFresh_inv hs hstep
-          · cases hstep; exact hs
-        · cases hstep; exact hs
-      split
-      · exact ⟨hs', ho⟩
-      · exact ih hs' (updKey_inv ho (fun _ => ⟨rfl, rfl⟩))
-
-theorem containerLoop_inv (cx : MergeCtx) : ∀ (l : List Sym) {self other : Table}, TInv self →
-    TInv other → PInv (containerLoop cx l self other) := by
-  intro l; induction l with
-  | nil => intro s o hs ho; exact ⟨hs, ho⟩
-  | cons c r ih =>
-    intro s o hs ho
-    simp only [containerLoop]
-    split
-    · exact ⟨hs, ho⟩
-    · rename_i self' hstep
-      have hs' : TInv self' := by
-        split at hstep
-        · split at hstep
-          · split at hstep
-            · cases hstep
-            · rename_i s1 h1
-              exact addSym_inv (renameFresh_inv hs h1) hstep
-          · split at hstep
-            · cases hstep; exact updKey_inv hs (fun _ => ⟨rfl, rfl⟩)
-            · cases hstep; exact hs
-        · exact addSym_inv hs hstep
-      have h1 := importLoop_inv cx c (importedFrom o.ents c.id) hs' ho
-      generalize hres : importLoop cx c (importedFrom o.ents c.id) self' o = res at h1
-      obtain ⟨e, s', o'⟩ := res
-      cases e with
-      | none => exact ih h1.1 h1.2
-      | some e => exact h1
-
-theorem handleClash_inv (cx : MergeCtx) {self other : Table} (hs : TInv self) (ho : TInv other) (o : Sym) :
-    PInv (handleClash cx self other o) := by
-  unfold handleClash
-  split
-  · repeat' split
-    all_goals exact ⟨hs, ho⟩
-  · split
-    · exact ⟨hs, ho⟩
-    · split
-      · exact ⟨hs, ho⟩
-      · dsimp only
-        split
-        · rename_i other' h1
-          have ho' := renameSym_inv ho h1
-          split
-          · rename_i self' h2; exact ⟨addSym_inv hs h2, ho'⟩
-          · exact ⟨hs, ho'⟩
-        · split
-          · exact ⟨hs, ho⟩
-          · rename_i self' h2
-            have hs' := renameSym_inv hs h2
-            split
-            · rename_i self'' h3; exact ⟨addSym_inv hs' h3, ho⟩
-            · exact ⟨hs', ho⟩
-        · exact ⟨hs, ho⟩
-
-theorem symbolLoop_inv (cx : MergeCtx) : ∀ (l : List Sym) {self other : Table}, TInv self →
-    TInv other → PInv (symbolLoop cx l self other) := by
-  intro l; induction l with
-  | nil => intro s o hs ho; exact ⟨hs, ho⟩
-  | cons a r ih =>
-    intro s o hs ho
-    simp only [symbolLoop]
-    split
-    · exact ih hs ho
-    · split
-      · rename_i self' h1; exact ih (addSym_inv hs h1) ho
-      · have h1 := handleClash_inv cx hs ho a
-        generalize hres : handleClash cx s o a = res at h1
-        obtain ⟨e, s', o'⟩ := res
-        cases e with
-        | none => exact ih h1.1 h1.2
-        | some e => exact h1
-
-theorem mergeTables_inv (cx : MergeCtx) {self other : Table} (hs : TInv self) (ho : TInv other) :
-    PInv (mergeTables cx self other).1 := by
-  unfold mergeTables
-  have h1 := checkLoop_inv cx (other.ents.map Prod.snd) hs ho
-  generalize checkLoop cx (other.ents.map Prod.snd) self other = r1 at h1
-  obtain ⟨e1, s1, o1⟩ := r1
-  cases e1 with
-  | some e => exact h1
-  | none =>
-    dsimp only
-    have h2 := containerLoop_inv cx (containersOf o1.ents) h1.1 h1.2
-    generalize containerLoop cx (containersOf o1.ents) s1 o1 = r2 at h2
-    obtain ⟨e2, s2, o2⟩ := r2
-    cases e2 with
-    | some e => exact h2
-    | none =>
-      dsimp only
-      have h3 := symbolLoop_inv cx (o2.ents.map Prod.snd) h2.1 h2.2
-      generalize symbolLoop cx (o2.ents.map Prod.snd) s2 o2 = r3 at h3
-      obtain ⟨e3, s3, o3⟩ := r3
-      cases e3 with
-      | some e => exact h3
-      | none => exact h3
 
 /-! ### the invariant of a state and its preservation by every operation -/
 
@@ -679,6 +110,16 @@ theorem C16_inv_preserved (st : State) (op : Op) (h : Inv st) : Inv (step st op)
       · exact h
       · exact setTab_inv h t (TInv_of_ents_eq (tab_inv h t) rfl rfl)
     · exact h
+  | swapProps t i j =>
+    simp only [step]; split
+    · split
+      · rename_i s1 s2 _ _
+        have := swapProps_inv (tab_inv h t) s1 s2
+        split
+        · rename_i e tb heq; rw [heq] at this; exact setTab_inv h t this
+        · rename_i tb heq; rw [heq] at this; exact setTab_inv h t this
+      · exact h
+    · exact h
   | merge t o skip intr =>
     simp only [step]; split
     · have hm := mergeTables_inv ⟨ancEnts st t, ancEnts st o, skip, intr⟩ (tab_inv h t) (tab_inv h o)
@@ -705,56 +146,6 @@ theorem C16_inv_all_histories (st : State) (h : Inv st) : ∀ ops : List Op, Inv
 /-! ### lookup returns the symbol of the innermost enclosing scope that has the name -/
 
 /-- the entry of the first table (innermost first) that has key `k` -/
-def firstHit : List Ents → Name → Option Sym
-  | [], _ => none
-  | e :: r, k => match getKey e k with
-    | some s => some s
-    | none => firstHit r k
-
-theorem getKey_append (a b : Ents) (k : Name) :
-    getKey (a ++ b) k = match getKey a k with | some s => some s | none => getKey b k := by
-  induction a with
-  | nil => simp [getKey]
-  | cons p r ih =>
-    obtain ⟨x, s⟩ := p
-    simp only [List.cons_append, getKey]
-    split
-    · rfl
-    · exact ih
-
-theorem getKey_filter (acc e : Ents) (k : Name) (h : hasKey acc k = false) :
-    getKey (e.filter (fun p => !hasKey acc p.1)) k = getKey e k := by
-  induction e with
-  | nil => simp [getKey]
-  | cons p r ih =>
-    obtain ⟨x, s⟩ := p
-    simp only [List.filter_cons]
-    by_cases hx : x = k
-    · subst hx; simp [h, getKey]
-    · split
-      · simp only [getKey]; rw [ih]
-      · simp only [getKey]
-        have : (x == k) = false := by simpa using hx
-        rw [this]; simpa using ih
-
-theorem getKey_mergeDicts (r : List Ents) : ∀ (acc : Ents) (k : Name),
-    getKey (mergeDicts acc r) k = match getKey acc k with | some s => some s | none => firstHit r k := by
-  induction r with
-  | nil => intro acc k; simp only [mergeDicts, firstHit]; cases getKey acc k <;> rfl
-  | cons e r ih =>
-    intro acc k
-    simp only [mergeDicts, firstHit]
-    rw [ih, getKey_append]
-    cases hacc : getKey acc k with
-    | some s => rfl
-    | none =>
-      have : hasKey acc k = false := by rw [← getKey_isSome_eq_hasKey, hacc]; rfl
-      simp only [getKey_filter acc e k this]
-
-/-- **lookup is innermost-first**: `lookup` (which indexes the merged dictionary built by `get_symbols`)
-returns the entry of the first table of the scope chain — the table itself, then the tables of the
-enclosing scoping nodes from the inside out, not beyond `scope_limit` — that has the normalised name,
-and raises `KeyError` iff none of them has it. -/
 theorem C16_lookup_innermost (st : State) (t : Nat) (name : Name) (limit : Option Nat) :
     lookup st t name limit =
       match firstHit ((chain st t limit).map fun i => (tab st i).ents) (lower name) with
@@ -764,37 +155,6 @@ theorem C16_lookup_innermost (st : State) (t : Nat) (name : Name) (limit : Optio
   rw [getKey_mergeDicts]
   simp only [getKey]
   rfl
-
-theorem firstHit_none_iff {l : List Ents} {k : Name} : firstHit l k = none ↔ ∀ e ∈ l, k ∉ keys e := by
-  induction l with
-  | nil => simp [firstHit]
-  | cons e r ih =>
-    simp only [firstHit, List.mem_cons, forall_eq_or_imp]
-    cases he : getKey e k with
-    | some s =>
-      simp only [reduceCtorEq, false_iff, not_and]
-      intro h; exact absurd (getKey_none_iff.mpr h) (by simp [he])
-    | none => simp only [ih]; exact ⟨fun h => ⟨getKey_none_iff.mp he, h⟩, fun h => h.2⟩
-
-/-- what "first table that has the key" means: position `n` in the chain holds the key, no table before it does -/
-theorem firstHit_some_spec {l : List Ents} {k : Name} {s : Sym} (h : firstHit l k = some s) :
-    ∃ n, n < l.length ∧ getKey (l.getD n []) k = some s ∧ ∀ m, m < n → k ∉ keys (l.getD m []) := by
-  induction l with
-  | nil => simp [firstHit] at h
-  | cons e r ih =>
-    simp only [firstHit] at h
-    cases he : getKey e k with
-    | some s' =>
-      rw [he] at h; cases h
-      exact ⟨0, by simp, by simpa using he, by intro m hm; omega⟩
-    | none =>
-      rw [he] at h
-      obtain ⟨n, h1, h2, h3⟩ := ih h
-      refine ⟨n+1, by simp; omega, by simpa using h2, ?_⟩
-      intro m hm
-      cases m with
-      | zero => simpa using getKey_none_iff.mp he
-      | succ m => simpa using h3 m (by omega)
 
 theorem C16_lookup_scope_limit_self (st : State) (t n : Nat) (h : (tab st t).node = some n) :
     chain st t (some n) = [t] := by
@@ -807,16 +167,6 @@ theorem C16_lookup_scope_limit_self (st : State) (t n : Nat) (h : (tab st t).nod
 
 /-! ### freshness of generated names -/
 
-theorem keys_mergeDicts_nil {l : List Ents} {k : Name} (h : k ∉ keys (mergeDicts [] l)) :
-    ∀ e ∈ l, k ∉ keys e := by
-  have := getKey_none_iff.mpr h
-  rw [getKey_mergeDicts] at this
-  simp only [getKey] at this
-  exact firstHit_none_iff.mp this
-
-/-- **freshness and termination of `next_available_name`**: the returned name clashes (case-insensitively)
-neither with this table, nor — unless `shadowing` — with any enclosing scope, nor with `other_table`; and
-the search loop stopped by its own test after at most `|existing names|` increments (no fuel exhaustion). -/
 theorem C16_fresh (st : State) (t : Nat) (root : Name) (sh : Bool) (other : Option Nat) (n : Name)
     (h : (step st (.nextName t root sh other)).1 = .name n) :
     lower n ∉ keys (tab st t).ents ∧
@@ -866,8 +216,10 @@ theorem C16_new_symbol_name_fresh (st : State) (t : Nat) (root : Name) :
 
 /-! ### atomicity -/
 
+/-- the two operations that are not atomic in the pinned code (known findings) -/
 def Op.isMerge : Op → Bool
   | .merge .. => true
+  | .swapProps .. => true
   | _ => false
 
 theorem newSymbol_atomic (st : State) (t : Nat) (root : Name) (tag : Option Name) (sh : Bool)
@@ -881,12 +233,13 @@ theorem newSymbol_atomic (st : State) (t : Nat) (root : Name) (tag : Option Name
     | rfl
     | (exfalso; simp_all)
 
-/-- **a rejected operation changes nothing** — every operation except `merge`: if it raises, all tables
+/-- **a rejected operation changes nothing** — every operation except `merge` and `swap_symbol_properties`: if it raises, all tables
 (entries, their order, tags, argument lists, attachments) are exactly as before. -/
 theorem C16_atomic (st : State) (op : Op) (hop : op.isMerge = false) (e : Err)
     (h : (step st op).1 = .err e) : (step st op).2.tabs = st.tabs := by
   cases op with
   | merge t o skip intr => simp [Op.isMerge] at hop
+  | swapProps t i j => simp [Op.isMerge] at hop
   | create => simp [step] at h
   | newSymbol t root tag sh kind ar iface wild =>
     simp only [step] at h ⊢
@@ -914,63 +267,24 @@ theorem C16_atomic (st : State) (op : Op) (hop : op.isMerge = false) (e : Err)
 
 /-! ### merge: what is atomic, what is not -/
 
-/-- the receiving table has no unresolved symbol named like a Fortran intrinsic (then
-`check_for_clashes` has nothing to specialise) -/
-def NoIntrinsicUnresolved (cx : MergeCtx) (self : Table) : Prop :=
-  ∀ p ∈ self.ents, p.2.iface = .unresolved → cx.intr.contains (lower p.2.name) = false
-
-instance (cx : MergeCtx) (self : Table) : Decidable (NoIntrinsicUnresolved cx self) := by
-  unfold NoIntrinsicUnresolved; infer_instance
-
-theorem checkOne_unchanged (cx : MergeCtx) {self other : Table} (h : NoIntrinsicUnresolved cx self) (o : Sym) :
-    (checkOne cx self other o).self = self ∧ (checkOne cx self other o).other = other := by
-  have hkey : ∀ this, getKey self.ents (lower o.name) = some this → this.iface = .unresolved →
-      cx.intr.contains (lower this.name) = false := fun this hg hi => h _ (getKey_some_mem hg) hi
-  unfold checkOne
-  dsimp only
-  repeat' split
-  all_goals first
-    | exact ⟨rfl, rfl⟩
-    | (exfalso; simp_all)
-
-theorem checkLoop_unchanged (cx : MergeCtx) : ∀ (l : List Sym) {self other : Table}, NoIntrinsicUnresolved cx self →
-    (checkLoop cx l self other).self = self ∧ (checkLoop cx l self other).other = other := by
-  intro l; induction l with
-  | nil => intro s o _; exact ⟨rfl, rfl⟩
-  | cons a r ih =>
-    intro s o h
-    have h1 := checkOne_unchanged cx (other := o) h a
-    generalize hres : checkOne cx s o a = res at h1
-    obtain ⟨e, s', o'⟩ := res
-    simp only at h1
-    obtain ⟨rfl, rfl⟩ := h1
-    cases e with
-    | none => simp only [checkLoop, hres]; exact ih h
-    | some e => simp [checkLoop, hres]
-
-/-- Full statement of the atomicity clause for `merge` (FALSE for the pinned code, see the counterexamples). -/
+/-- Full statement of the atomicity clause for `merge` (FALSE for the code, see the counterexamples). -/
 def C16_merge_atomic_statement : Prop :=
   ∀ (cx : MergeCtx) (self other : Table), TInv self → TInv other →
     (mergeTables cx self other).1.err ≠ none →
     (mergeTables cx self other).1.self = self ∧ (mergeTables cx self other).1.other = other
 
-/-- **partial atomicity of merge**: a merge that is rejected by `check_for_clashes` (phase 0) leaves both
-tables untouched provided the receiving table has no unresolved symbol with an intrinsic's name. -/
-theorem C16_merge_rejected_atomic_partial (cx : MergeCtx) (self other : Table)
-    (hside : NoIntrinsicUnresolved cx self) (hphase : (mergeTables cx self other).2 = 0) :
+/-- a merge that is rejected by `check_for_clashes` (phase 0) leaves both tables untouched
+(code with fixes/C16-defer-specialise.patch). -/
+theorem C16_merge_check_atomic (cx : MergeCtx) (self other : Table) (hphase : (mergeTables cx self other).2 = 0) :
     (mergeTables cx self other).1.self = self ∧ (mergeTables cx self other).1.other = other := by
-  have h1 := checkLoop_unchanged cx (other.ents.map Prod.snd) (other := other) hside
   unfold mergeTables at hphase ⊢
-  generalize checkLoop cx (other.ents.map Prod.snd) self other = r1 at h1 hphase
-  obtain ⟨e1, s1, o1⟩ := r1
-  simp only at h1
-  obtain ⟨rfl, rfl⟩ := h1
-  cases e1 with
-  | some e => exact ⟨rfl, rfl⟩
-  | none =>
-    exfalso
+  split
+  · exact ⟨rfl, rfl⟩
+  · exfalso
+    rename_i ks hks
+    rw [hks] at hphase
     dsimp only at hphase
-    generalize containerLoop cx (containersOf o1.ents) s1 o1 = r2 at hphase
+    generalize containerLoop cx (containersOf (specAll other ks).ents) (specAll self ks) (specAll other ks) = r2 at hphase
     obtain ⟨e2, s2, o2⟩ := r2
     cases e2 with
     | some e => simp at hphase
@@ -989,18 +303,14 @@ def nM : Name := [109]
 def nX : Name := [120]
 def nZZ : Name := [122, 122]
 
-/-- finding 1: self = {sin, a}, other = {sin, a}, all unresolved generic symbols, no wildcard imports -/
+/-- former finding 1 (repaired by fixes/C16-defer-specialise.patch): self = {sin, a}, other = {sin, a}, all
+unresolved generic symbols: the merge is rejected and nothing has been specialised -/
 def w1cx : MergeCtx := ⟨[], [], [], [nSin]⟩
 def w1self : Table := { ents := [(nSin, ⟨0, nSin, .generic, .unresolved, false⟩), (nA, ⟨2, nA, .generic, .unresolved, false⟩)] }
 def w1other : Table := { ents := [(nSin, ⟨1, nSin, .generic, .unresolved, false⟩), (nA, ⟨3, nA, .generic, .unresolved, false⟩)] }
 
-theorem w1_inv : TInv w1self ∧ TInv w1other :=
-  ⟨⟨by decide, by decide, by decide⟩, ⟨by decide, by decide, by decide⟩⟩
-
-theorem C16_atomic_counterexample_specialise : ¬ C16_merge_atomic_statement := by
-  intro h
-  have := h w1cx w1self w1other w1_inv.1 w1_inv.2 (by decide)
-  revert this; decide
+example : (mergeTables w1cx w1self w1other).1.err = some .symbol ∧ (mergeTables w1cx w1self w1other).1.self = w1self ∧
+    (mergeTables w1cx w1self w1other).1.other = w1other := by decide
 
 /-- finding 2: self = {v: argument}, other = {m: container, v imported from m}, skip = [v] -/
 def w2cx : MergeCtx := ⟨[], [], [2], []⟩
@@ -1008,10 +318,15 @@ def w2self : Table := { ents := [(nV, ⟨0, nV, .data, .argument, false⟩)] }
 def w2other : Table := { ents := [(nM, ⟨1, nM, .container, .automatic, false⟩), (nV, ⟨2, nV, .data, .imp 1 nM none, false⟩)] }
 
 theorem C16_atomic_counterexample_skip :
-    TInv w2self ∧ TInv w2other ∧ NoIntrinsicUnresolved w2cx w2self ∧
+    TInv w2self ∧ TInv w2other ∧
     (mergeTables w2cx w2self w2other).1.err = some .symbol ∧ (mergeTables w2cx w2self w2other).2 = 1 ∧
     (mergeTables w2cx w2self w2other).1.self ≠ w2self :=
-  ⟨⟨by decide, by decide, by decide⟩, ⟨by decide, by decide, by decide⟩, by decide, by decide, by decide, by decide⟩
+  ⟨⟨by decide, by decide, by decide⟩, ⟨by decide, by decide, by decide⟩, by decide, by decide, by decide⟩
+
+theorem C16_merge_atomic_statement_false : ¬ C16_merge_atomic_statement := by
+  intro h
+  have := h w2cx w2self w2other C16_atomic_counterexample_skip.1 C16_atomic_counterexample_skip.2.1 (by decide)
+  exact C16_atomic_counterexample_skip.2.2.2.2 this.1
 
 /-- finding 3: other = {zz, v imported from container #0 of an enclosing scope}, self = {m: container #3, v imported from it} -/
 def w3cx : MergeCtx := ⟨[], [[(nM, ⟨0, nM, .container, .automatic, false⟩)]], [], []⟩
@@ -1019,33 +334,45 @@ def w3self : Table := { ents := [(nM, ⟨3, nM, .container, .automatic, false⟩
 def w3other : Table := { ents := [(nZZ, ⟨1, nZZ, .data, .automatic, false⟩), (nV, ⟨2, nV, .data, .imp 0 nM none, false⟩)] }
 
 theorem C16_atomic_counterexample_outer_import :
-    TInv w3self ∧ TInv w3other ∧ NoIntrinsicUnresolved w3cx w3self ∧
+    TInv w3self ∧ TInv w3other ∧
     (mergeTables w3cx w3self w3other).1.err = some .internal ∧ (mergeTables w3cx w3self w3other).2 = 2 ∧
     (mergeTables w3cx w3self w3other).1.self ≠ w3self :=
-  ⟨⟨by decide, by decide, by decide⟩, ⟨by decide, by decide, by decide⟩, by decide, by decide, by decide, by decide⟩
+  ⟨⟨by decide, by decide, by decide⟩, ⟨by decide, by decide, by decide⟩, by decide, by decide, by decide⟩
+
+/-- finding 6: self = {n: IntrinsicSymbol with an argument interface}, other = {zz, n: unresolved IntrinsicSymbol}:
+accepted by `check_for_clashes` (both IntrinsicSymbols), then neither can be renamed -/
+def w7cx : MergeCtx := ⟨[], [], [], []⟩
+def w7self : Table := { ents := [([110], ⟨0, [110], .intrinsic, .argument, false⟩)] }
+def w7other : Table := { ents := [(nZZ, ⟨1, nZZ, .data, .automatic, false⟩), ([110], ⟨2, [110], .intrinsic, .unresolved, false⟩)] }
+
+theorem C16_atomic_counterexample_intrinsic :
+    TInv w7self ∧ TInv w7other ∧
+    (mergeTables w7cx w7self w7other).1.err = some .symbol ∧ (mergeTables w7cx w7self w7other).2 = 2 ∧
+    (mergeTables w7cx w7self w7other).1.self ≠ w7self :=
+  ⟨⟨by decide, by decide, by decide⟩, ⟨by decide, by decide, by decide⟩, by decide, by decide, by decide⟩
+
+/-! #### swap_symbol_properties -/
+
+/-- finding 5: `swap_symbol_properties(a: generic Symbol, b: DataSymbol argument)` raises TypeError after the
+interface of `a` has been replaced -/
+def w5tab : Table := { ents := [(nA, ⟨0, nA, .generic, .automatic, false⟩), ([98], ⟨1, [98], .data, .argument, false⟩)] }
+
+theorem C16_swap_props_atomic_counterexample :
+    TInv w5tab ∧ (swapProps w5tab ⟨0, nA, .generic, .automatic, false⟩ ⟨1, [98], .data, .argument, false⟩).1 = some .type ∧
+    (swapProps w5tab ⟨0, nA, .generic, .automatic, false⟩ ⟨1, [98], .data, .argument, false⟩).2 ≠ w5tab :=
+  ⟨⟨by decide, by decide, by decide⟩, by decide, by decide⟩
+
+/-- **partial atomicity of swap_symbol_properties**: when the class of `symbol2` accepts the properties of
+`symbol1` (always the case for two symbols of the same class), a rejected call changes nothing. -/
+theorem C16_swap_props_atomic_partial (t : Table) (s1 s2 : Sym) (hside : copyAccepts s2.kind s1.kind = true)
+    (e : Err) (h : (swapProps t s1 s2).1 = some e) : (swapProps t s1 s2).2 = t := by
+  unfold swapProps at h ⊢
+  repeat' split
+  all_goals first
+    | rfl
+    | (exfalso; simp_all)
 
 /-! ### merge adds every non-skipped symbol -/
-
-theorem addSym_ids {t t' : Table} {ct : List Name} {s : Sym} {tag : Option Name}
-    (hr : addSym t ct s tag = .ok t') : ids t'.ents = ids t.ents ++ [s.id] := by
-  unfold addSym at hr
-  repeat' split at hr
-  all_goals first
-    | (cases hr; done)
-    | (cases hr; simp [ids])
-
-theorem renameSym_ids_mono {t t' : Table} {i : Nat} {nn : Name} {dry : Bool} (h : TInv t)
-    (hr : renameSym t i nn dry = .ok t') : ∀ j ∈ ids t.ents, j ∈ ids t'.ents := by
-  unfold renameSym at hr
-  split at hr
-  · cases hr
-  · rename_i s hs
-    obtain ⟨hid, k, hmem⟩ := getId_some hs
-    repeat' split at hr
-    all_goals first
-      | (cases hr; done)
-      | (cases hr; intro j hj; exact hj)
-      | (cases hr; exact ids_after_rename h.keyName h.nodup hmem _ rfl)
 
 /-- an "ordinary" symbol: not a ContainerSymbol, not imported, not unresolved -/
 def Sym.ordinary (o : Sym) : Prop := o.kind ≠ .container ∧ o.iface.isImport = false ∧ o.iface ≠ .unresolved
@@ -1163,6 +490,113 @@ theorem C16_merge_once_partial (cx : MergeCtx) (l : List Sym) (self other : Tabl
 theorem C16_name_occurs_once {t : Table} (h : TInv t) {k : Name} {a b : Sym}
     (ha : (k, a) ∈ t.ents) (hb : (k, b) ∈ t.ents) : a = b := unique_of_nodup h.nodup ha hb
 
+
+/-! ### merge after the check: no raise, full atomicity, merge-once on the original table
+
+Side conditions `MergeSide` (Lemmas/C16Merge.lean), all decidable: both tables satisfy the invariant; a symbol
+object occurs once per table and not in both; no ContainerSymbol and no imported symbol is listed in
+`symbols_to_skip` (excludes finding 2); every imported symbol of the merged table is imported from a
+ContainerSymbol that is an entry of the merged table (excludes findings 3 and 4); ContainerSymbols are neither
+imported nor unresolved and IntrinsicSymbols are unresolved. -/
+
+/-- **(2) no raise after the check**: under the side conditions `merge` is either rejected by
+`check_for_clashes` (phase 0) or succeeds (phase 3): the container phase and the symbol phase cannot raise. -/
+theorem C16_no_raise_after_check_partial (cx : MergeCtx) (self other : Table) (H : MergeSide cx self other) :
+    (mergeTables cx self other).2 = 0 ∨
+    ((mergeTables cx self other).2 = 3 ∧ (mergeTables cx self other).1.err = none) := by
+  rcases mergeTables_after_check H with ⟨e, he⟩ | ⟨F, O3, he, _⟩
+  · left; rw [he]
+  · right; rw [he]; exact ⟨rfl, rfl⟩
+
+/-- **full atomicity of merge under the side conditions**: a rejected merge changes neither table. -/
+theorem C16_merge_atomic_partial (cx : MergeCtx) (self other : Table) (H : MergeSide cx self other)
+    (h : (mergeTables cx self other).1.err ≠ none) :
+    (mergeTables cx self other).1.self = self ∧ (mergeTables cx self other).1.other = other := by
+  rcases mergeTables_after_check H with ⟨e, he⟩ | ⟨F, O3, he, _⟩
+  · rw [he]; exact ⟨rfl, rfl⟩
+  · rw [he] at h; exact absurd rfl h
+
+/-- **(1) merge-once on the original table**: after a successful merge, the result keeps the invariant,
+every symbol of the receiving table is an entry exactly once (by identity), and every non-skipped symbol of
+the ORIGINAL merged table is, by identity, an entry exactly once, or it is a ContainerSymbol absorbed by a
+ContainerSymbol of the same name, or it is imported / unresolved and absorbed by an imported / unresolved
+entry of the same name (a different object). -/
+theorem C16_merge_once_full_partial (cx : MergeCtx) (self other : Table) (H : MergeSide cx self other)
+    (h : (mergeTables cx self other).1.err = none) :
+    TInv (mergeTables cx self other).1.self ∧
+    (∀ j ∈ ids self.ents, (ids (mergeTables cx self other).1.self.ents).count j = 1) ∧
+    ∀ p ∈ other.ents, p.2.id ∉ cx.skip →
+      (ids (mergeTables cx self other).1.self.ents).count p.2.id = 1 ∨
+      (p.2.kind = .container ∧ AbsorbedC (mergeTables cx self other).1.self p.2) ∨
+      Absorbed (mergeTables cx self other).1.self p.2 := by
+  rcases mergeTables_after_check H with ⟨e, he⟩ | ⟨F, O3, he, hF, hn, hm, hall⟩
+  · rw [he] at h; cases h
+  · rw [he]
+    refine ⟨hF, fun j hj => List.count_eq_one_of_mem hn (hm j hj), fun p hp hps => ?_⟩
+    rcases hall p hp hps with h1 | h1 | h1
+    · exact Or.inl (List.count_eq_one_of_mem hn h1)
+    · exact Or.inr (Or.inl h1)
+    · exact Or.inr (Or.inr h1)
+
+/-- **(3) exactly once by identity for ordinary symbols** (not a container, not imported, not unresolved) -/
+theorem C16_merge_ordinary_exactly_once (cx : MergeCtx) (self other : Table) (H : MergeSide cx self other)
+    (h : (mergeTables cx self other).1.err = none) :
+    ∀ p ∈ other.ents, p.2.id ∉ cx.skip → p.2.ordinary →
+      (ids (mergeTables cx self other).1.self.ents).count p.2.id = 1 := by
+  intro p hp hps hord
+  rcases (C16_merge_once_full_partial cx self other H h).2.2 p hp hps with h1 | ⟨h1, _⟩ | ⟨q, _, _, hc⟩
+  · exact h1
+  · exact absurd h1 hord.1
+  · rcases hc with ⟨_, h2⟩ | ⟨_, h2⟩
+    · rw [hord.2.1] at h2; cases h2
+    · exact absurd h2 hord.2.2
+
+theorem set_getD_self (l : List Table) (t : Nat) (h : t < l.length) : l.set t (l.getD t {}) = l := by
+  rw [List.getD_eq_getElem?_getD, List.getElem?_eq_getElem h]; simp
+
+/-- state-level form of `C16_merge_atomic_partial` -/
+theorem C16_merge_step_atomic_partial (st : State) (t o : Nat) (skip : List Nat) (intr : List Name)
+    (H : MergeSide ⟨ancEnts st t, ancEnts st o, skip, intr⟩ (tab st t) (tab st o)) (e : Err)
+    (h : (step st (.merge t o skip intr)).1 = .err e) : (step st (.merge t o skip intr)).2.tabs = st.tabs := by
+  simp only [step] at h ⊢
+  split at h
+  · rename_i hcond
+    rw [if_pos hcond]
+    have hA := C16_merge_atomic_partial _ _ _ H
+    generalize mergeTables ⟨ancEnts st t, ancEnts st o, skip, intr⟩ (tab st t) (tab st o) = r at h hA ⊢
+    obtain ⟨⟨er, s, ot⟩, ph⟩ := r
+    cases er with
+    | none => simp at h
+    | some e' =>
+      obtain ⟨h1, h2⟩ := hA (by simp)
+      simp only at h1 h2
+      subst h1; subst h2
+      simp only [Bool.and_eq_true, decide_eq_true_eq] at hcond
+      have ht : t < st.tabs.length := hcond.1.1.1.1.1
+      have ho : o < st.tabs.length := hcond.1.1.1.1.2
+      simp only [setTab, tab]
+      rw [set_getD_self _ _ ht, set_getD_self _ _ ho]
+  · cases h
+
+/-- non-vacuity: the scenario of the seeded mutation C16-2 (receiving table {x: local}; merged table
+{mod: container, x_1 and X imported from mod}) satisfies the side conditions, the merge succeeds, the local
+is renamed to x_2 and all three symbols of the merged table are entries of the result -/
+def w6cx : MergeCtx := ⟨[], [], [], []⟩
+def w6self : Table := { ents := [(nX, ⟨0, nX, .data, .automatic, false⟩)] }
+def w6other : Table := { ents := [([109, 111, 100], ⟨1, [109, 111, 100], .container, .automatic, false⟩),
+  ([120, 95, 49], ⟨2, [120, 95, 49], .data, .imp 1 [109, 111, 100] none, false⟩),
+  (nX, ⟨3, [88], .data, .imp 1 [109, 111, 100] none, false⟩)] }
+
+instance (skip : List Nat) (s : Sym) : Decidable (SymOK skip s) := by unfold SymOK; infer_instance
+
+theorem w6_side : MergeSide w6cx w6self w6other :=
+  ⟨⟨by decide, by decide, by decide⟩, ⟨by decide, by decide, by decide⟩, by decide, by decide, by decide,
+   by decide, by decide, by decide, by decide⟩
+
+example : (mergeTables w6cx w6self w6other).1.err = none ∧
+    keys (mergeTables w6cx w6self w6other).1.self.ents = [[109, 111, 100], [120, 95, 50], [120, 95, 49], nX] ∧
+    ids (mergeTables w6cx w6self w6other).1.self.ents = [1, 0, 2, 3] := by decide
+
 /-! ### non-vacuity and sanity evaluations -/
 
 def nB : Name := [66]       -- "B"
@@ -1188,8 +622,9 @@ example : keys (tab (run st0 hist0) 1).ents = [[97], [97, 95, 49]] := by decide
 example : (step (run st0 hist0) (.nextName 1 nA false none)).1 = .name [97, 95, 50] := by decide
 example : (step (run st0 hist0) (.nextName 1 nA false none)).1 = .name [97, 95, 50] →
     lower [97, 95, 50] ∉ keys (tab (run st0 hist0) 1).ents := fun h => (C16_fresh _ _ _ _ _ _ h).1
-example : NoIntrinsicUnresolved w2cx w2self := by decide
+example : copyAccepts .data .data = true := by decide
 example : (mergeTables w4cx w4self w4other).2 = 3 := by decide
 example : ∃ o : Sym, o.ordinary := ⟨⟨0, nA, .data, .automatic, false⟩, by decide, by decide, by decide⟩
 
 end C16
+
